@@ -164,4 +164,19 @@ PROPS = {
         "components": {"real": REAL + ["otto interpreter and rulio's watchdog goroutine, on the fake clock"], "stub": STUB_COMMON},
         "assumptions": ["CPU-bound non-terminating scripts cannot be simulated in fake time (time does not advance while a goroutine runs); they are outside this check"],
     },
+    "C16": {
+        "level": "exploration",
+        "build": "plain",
+        "tiers": tiers(3000, 60, 80000, 900),
+        "rule": "world memcron: the real cron.Cron with its own broadcaster on the fake clock; 4-16 operations at unique instants - Add (one-shot +d, !RFC3339, "
+                "recurring every 1/2/5 s and every minute) over 3 ids so that replacement happens, Rem, Suspend/Resume/Pause (local and broadcast); callbacks "
+                "record (id, instant) and 1 in 3 then sleeps 0.1-3.5 s (opens the window between 'popped' and 're-armed'); Timeline inspected after every "
+                "operation; after the last operation every suspension is lifted and 90 simulated seconds pass (bounded liveness). Judged: no fire before due, "
+                "one-shot at most once and exactly once if still registered, at most one fire per occurrence, no skipped occurrence while callbacks are shorter "
+                "than the period and nothing is suspended, never a fire for an occurrence due after removal, at most one pending entry per id. "
+                "World crolt: the Bolt-backed service (see its entry). Non-trivial: at least one job fired; distinct = distinct (schedule, callback "
+                "duration, number of fires, removed) tuples.",
+        "components": {"real": ["cron.Cron, cron.CronBroadcaster (real goroutines, fake timers)", "crolt.Cron over a real Bolt file", "gorhill/cronexpr"], "stub": ["fake clock of testing/synctest", "http.DefaultClient transport stub recording crolt deliveries"]},
+        "assumptions": ["operations never coincide with a due instant (odd microsecond residues)", "cronexpr defines the occurrences of a schedule"],
+    },
 }
